@@ -11,6 +11,8 @@ import (
 	"github.com/opsidian/parsley/data"
 	"github.com/opsidian/parsley/parser"
 	"github.com/opsidian/parsley/parsley"
+	"github.com/opsidian/parsley/text"
+	"github.com/opsidian/parsley/text/terminal"
 	"pgregory.net/rapid"
 )
 
@@ -169,6 +171,120 @@ func renderFull(n parsley.Node, base int) string {
 	return fmt.Sprintf("%s(%T)@%d..%d", n.Token(), n, int(n.Pos())-base, int(n.ReaderPos())-base)
 }
 
+// sharedTerminalPhase: every terminal parser of the library is used by two alternatives at one
+// position, bare in the first and right-trimmed in the second (Any(SeqOf(t, ' ', ' ', '('),
+// SeqOf(RightTrim(t), '('))). No Memoize is involved, so nothing can excuse a change of the
+// node the first alternative was handed: a terminal must not hand the same node object out twice
+// and let the second consumer's RightTrim move it.
+func sharedTerminalPhase(ws string, pick int) (err error) {
+	defer func() {
+		if r := recover(); r != nil {
+			err = fmt.Errorf("panic: %v", r)
+		}
+	}()
+	terms := []struct {
+		name, text string
+		p          parsley.Parser
+	}{
+		{"Rune", "(", terminal.Rune('(')},
+		{"Op", "==", terminal.Op("==")},
+		{"Word", "let", terminal.Word("w", "let", "let")},
+		{"Integer", "42", terminal.Integer("i")},
+		{"Float", "2.5", terminal.Float("f")},
+		{"String", `"s\n"`, terminal.String("s", false)},
+		{"Char", "'c'", terminal.Char("c")},
+		{"Bool", "true", terminal.Bool("b", "true", "false")},
+		{"Nil", "nil", terminal.Nil("n", "nil")},
+		{"TimeDuration", "1h", terminal.TimeDuration("d")},
+		{"Regexp", "abc", terminal.Regexp("r", "ID", "id", "[a-z]+", 0)},
+	}
+	if ws == "" || strings.Trim(ws, " \t\n\f") != "" {
+		ws = "  "
+	}
+	mode := text.WsSpaces
+	if strings.ContainsAny(ws, "\n\f") {
+		mode = text.WsSpacesNl
+	}
+	for _, tm := range terms[pick%len(terms) : pick%len(terms)+1] {
+		type snapT struct {
+			node parsley.Node
+			repr string
+		}
+		var snaps []snapT
+		t := tm.p
+		snapped := parser.Func(func(ctx *parsley.Context, l data.IntMap, pos parsley.Pos) (parsley.Node, data.IntSet, parsley.Error) {
+			n, cp, e := t.Parse(ctx, l, pos)
+			if n != nil {
+				snaps = append(snaps, snapT{n, renderFull(n, 1)})
+			}
+			return n, cp, e
+		})
+		explicit := []parsley.Parser{snapped}
+		for _, b := range []byte(ws) {
+			explicit = append(explicit, terminal.Rune(rune(b)))
+		}
+		explicit = append(explicit, terminal.Rune('('))
+		g := combinator.Any(
+			combinator.SeqOf(explicit...),
+			// (RightTrim moves the end of the node IT was handed: that node is not watched)
+			combinator.SeqOf(text.RightTrim(t, mode), terminal.Rune('(')),
+		)
+		for round := 0; round < 2; round++ { // the second round: the same grammar value on a second input
+			src := tm.text + ws + "("
+			if round == 1 {
+				src = tm.text + "(" // same token at the same place, other whitespace behind it
+			}
+			snaps = snaps[:0]
+			ctx, f := NewCtx(src)
+			res, _, _ := g.Parse(ctx, data.EmptyIntMap, f.Pos(0))
+			want := 2 - round
+			if got := len(alternatives(res)); got != want {
+				return fmt.Errorf("terminal %s used bare and right-trimmed at one position on %q: %d readings, want %d", tm.name, src, got, want)
+			}
+			for _, s := range snaps {
+				if now := renderFull(s.node, 1); now != s.repr {
+					return fmt.Errorf("terminal %s used by two alternatives at one position (the second one right-trimmed) on %q: the node handed to a consumer changed afterwards:\n was %s\n now %s", tm.name, src, s.repr, now)
+				}
+			}
+		}
+	}
+	// one sequence object that ends with End(), reached twice in one parse (at two positions), the
+	// first result still held by the enclosing alternative: rest = SeqOf(word, End());
+	// Any(SeqOf('a', rest), rest) on "ab"
+	for variant := 0; variant < 2; variant++ {
+		word := terminal.Regexp("w", "WORD", "word", "[a-z]+", 0)
+		var rest parsley.Parser = combinator.SeqOf(word, parser.End()).Token("REST")
+		if variant == 1 {
+			rest = combinator.Sentence(word)
+		}
+		type snapT struct {
+			node parsley.Node
+			repr string
+		}
+		var snaps []snapT
+		r := rest
+		snapped := parser.Func(func(ctx *parsley.Context, l data.IntMap, pos parsley.Pos) (parsley.Node, data.IntSet, parsley.Error) {
+			n, cp, e := r.Parse(ctx, l, pos)
+			if n != nil {
+				snaps = append(snaps, snapT{n, renderFull(n, 1)})
+			}
+			return n, cp, e
+		})
+		g := combinator.Any(combinator.SeqOf(terminal.Rune('a'), snapped), snapped)
+		for _, src := range []string{"a" + strings.Repeat("b", pick%4), "ab"} {
+			snaps = snaps[:0]
+			ctx, f := NewCtx(src)
+			_, _, _ = g.Parse(ctx, data.EmptyIntMap, f.Pos(0))
+			for _, s := range snaps {
+				if now := renderFull(s.node, 1); now != s.repr {
+					return fmt.Errorf("a sequence ending with End() reached twice in one parse of %q: its first result changed afterwards:\n was %s\n now %s", src, s.repr, now)
+				}
+			}
+		}
+	}
+	return nil
+}
+
 // runC07Tokens is the literal workload: a sequence of trimmed literal tokens (strings with
 // escapes, integers, words, ...), each behind its own Memoize. Every node a token parser returns is
 // rendered with its value at return time, again after the whole sequence was parsed and evaluated
@@ -249,6 +365,19 @@ func runC07Tokens(c *C10Case, st *Stats) (err error) {
 		}
 	}
 	if err := compare("after asking every memoized token again"); err != nil {
+		return err
+	}
+	wsDrawn, pick := "", len(src)
+	for i, g := range c.Gaps {
+		pick += 7*len(g) + i
+		if len(g) > len(wsDrawn) {
+			wsDrawn = g
+		}
+	}
+	for _, ts := range c.Toks {
+		pick += 3*ts.Kind + len(ts.Text)
+	}
+	if err := sharedTerminalPhase(string(normCRLF([]byte(wsDrawn))), pick); err != nil {
 		return err
 	}
 	st.Class("literal token workload")
